@@ -386,8 +386,8 @@ func (olds Segment) Rename(news Segment) error {
 }
 
 func (olds Segment) Override(news Segment) error {
-	// remove index segment so we don't have invalid index
-	if err := os.Remove(news.Index); err != nil {
+	// remove index segment so we don't have invalid index, it might be missing if it was not (re)built yet
+	if err := os.Remove(news.Index); err != nil && !errors.Is(err, os.ErrNotExist) {
 		return fmt.Errorf("override index delete: %w", err)
 	}
 
@@ -406,7 +406,8 @@ func (olds Segment) Override(news Segment) error {
 }
 
 func (s Segment) Remove() error {
-	if err := os.Remove(s.Index); err != nil {
+	// the index might be missing if it was not (re)built yet
+	if err := os.Remove(s.Index); err != nil && !errors.Is(err, os.ErrNotExist) {
 		return fmt.Errorf("remove index delete: %w", err)
 	}
 	if err := os.Remove(s.Log); err != nil {
